@@ -46,6 +46,8 @@ func init() {
 	families["stages.amqpmut"] = &Family{Gen: genStagesMut(genAmqpConv, 2), Run: func(p sx.Sx) sx.Sx { return runStagesMut("amqp", p) }}
 	families["stages.httpmut"] = &Family{Gen: genStagesMut(genHttpConv, 2), Run: func(p sx.Sx) sx.Sx { return runStagesMut("http", p) }}
 	families["stages.kafkamut"] = &Family{Gen: genStagesMut(genKafkaStages, 1), Run: func(p sx.Sx) sx.Sx { return runStagesMut("kafka", p) }}
+	families["stages.h2c"] = &Family{Gen: genH2c, Run: func(p sx.Sx) sx.Sx { return runStages("h2c", p) }}
+	families["queries.h2c"] = families["stages.h2c"]
 	families["stages.dns"] = &Family{Gen: genDnsEntries, Run: func(p sx.Sx) sx.Sx { return runStages("dns", p) }}
 	for _, p := range []string{"redis", "amqp", "http", "dns", "kafka"} {
 		families["queries."+p] = families["stages."+p]
@@ -125,7 +127,7 @@ func stagesDissector(proto string) api.Dissector {
 		return redisExt.NewDissector()
 	case "amqp":
 		return amqpExt.NewDissector()
-	case "http":
+	case "http", "h2c":
 		return httpExt.NewDissector()
 	case "kafka":
 		return kafkaExt.NewDissector()
@@ -142,6 +144,8 @@ func stagesEncode(proto string, p sx.Sx) (cb, sb []byte) {
 		cb, sb = encFrames(p.List[0]), encFrames(p.List[1])
 	case "http":
 		cb, sb = encHttpConv(p)
+	case "h2c":
+		cb, sb = h2cBytes(p)
 	case "kafka":
 		for _, m := range p.List[0].List {
 			cb = append(cb, m.List[len(m.List)-1].Bytes()...)
@@ -181,7 +185,7 @@ func runStages(proto string, p sx.Sx) sx.Sx {
 func stagesOnBytes(proto string, d api.Dissector, cb, sb []byte) sx.Sx {
 	stats := &api.AppStats{}
 	out := make(chan *api.OutputChannelItem, 1<<14)
-	port := map[string]string{"redis": "6379", "amqp": "5672", "http": "80", "kafka": "9092"}[proto]
+	port := map[string]string{"redis": "6379", "amqp": "5672", "http": "80", "h2c": "80", "kafka": "9092"}[proto]
 	m := d.NewResponseRequestMatcher()
 	m.SetMaxTry(1)
 	conn := mock.NewConn(d, m, stats, out, "pcap0", "10.0.0.1", "40000", "10.0.0.2", port)
